@@ -496,6 +496,9 @@ def run_check(propmod, prop, tier, verif_seed, n_runs, variant='asan', jobs=None
     json.dump(ev, open(os.path.join(ROOT, 'evidence', prop + '.json'), 'w'), indent=1)
     print('%s %s: %d runs, %d distinct non-trivial, %d violation classes (%d known), %.1fs' % (
         prop, tier, len(main), ev['coverage']['distinct_nontrivial'], len(by_cls), len(known_hits), time.time() - t0))
+    if ev['coverage']['distinct_nontrivial'] < 2 and exit_code == 0:
+        sys.stderr.write('HARNESS: fewer than two distinct non-trivial runs - the generator is not exercising anything\n')
+        return 2
     return exit_code
 
 
@@ -724,6 +727,9 @@ def run_sweep(propmod, prop, tier, verif_seed, n_scen, variant='asan', jobs=None
     json.dump(evd, open(os.path.join(ROOT, 'evidence', prop + '.json'), 'w'), indent=1)
     print('%s %s: %d scenarios, %d fault points, %d distinct non-trivial, %d violation classes (%d known), %.1fs' % (
         prop, tier, len(bases), len(main), len(absset), len(by_cls), len(known_hits), wall))
+    if len(absset) < 2 and exit_code == 0:
+        sys.stderr.write('HARNESS: the sweep reached fewer than two distinct fault points - the scenarios are not exercising anything\n')
+        return 2
     return exit_code
 
 
